@@ -786,7 +786,15 @@ def _task(args):
         if rd == 0:
             o = obj(d, d.heap[r.oid][('f', 'Ok', 0)]); od = cval(ex.discr(d, o).t)
             kind = 'end' if od == 0 else 'value'
-            if kind == 'value': implden = sc.denote(d, d.heap[o.oid][('f', 'Some', 0)])
+            if kind == 'value':
+                try:
+                    implden = sc.denote(d, d.heap[o.oid][('f', 'Some', 0)])
+                except (KeyError, AttributeError, TypeError, IndexError) as exc_:
+                    # the value was built through code the scenario cannot read back (a helper that assembles the number elsewhere): undecided
+                    # here, settled by the native replay (the model's bytes and the number battery)
+                    ok_, m_ = ex.valid(d, z3.BoolVal(False))
+                    if not d.havoc: d.havoc.append('value construction the scenario cannot read back')
+                    cand('tok.value', 'value-unreadable', f'the value returned cannot be read back by the scenario ({type(exc_).__name__})', m_, d); continue
         else:
             e_ = obj(d, d.heap[r.oid][('f', 'Err', 0)]); ed = cval(ex.discr(d, e_).t); kind = 'error'
         ro = info['ro']
